@@ -19,6 +19,8 @@
 #include <pthread.h>
 #include <semaphore.h>
 #include <signal.h>
+#include <stdarg.h>
+#include <sys/stat.h>
 #include <stdio.h>
 #include <stdlib.h>
 #include <string.h>
@@ -109,6 +111,23 @@ ssize_t write(int fd, const void *buf, size_t n)
         return r;
     }
     return real_write(fd, buf, n);
+}
+/* and an open(2) issued by the library itself (file / tty outputs): process-wide settings a call changes around it (umask, cwd ...) are
+   visible to -- and can be clobbered by -- the other threads exactly here */
+static int (*real_open)(const char *, int, ...);
+int open(const char *path, int flags, ...)
+{
+    mode_t mode = 0;
+    if (flags & (O_CREAT | O_TMPFILE)) { va_list ap; va_start(ap, flags); mode = (mode_t) va_arg(ap, int); va_end(ap); }
+    if (!real_open) real_open = dlsym(RTLD_NEXT, "open");
+    if (me && in_call && !free_run) {
+        if (mode_measure) { snprintf(measured + strlen(measured), sizeof measured - strlen(measured), "%s\"io\"", measured[0] ? "," : ""); return real_open(path, flags, mode); }
+        park(ST_WANT);
+        int r = real_open(path, flags, mode);
+        park(ST_HOLD);
+        return r;
+    }
+    return real_open(path, flags, mode);
 }
 /* so is a close(2) issued by the library itself: a descriptor number released here may be handed to another thread's open() at once,
    so a stale or doubled close shows as another thread's lost record or unread configuration */
@@ -251,7 +270,8 @@ static int run_schedule(char *line, FILE *out, const char *logpath)
         if (!busy) break;
     }
     char fin[256]; project(fin, sizeof fin);
-    fprintf(out, "{\"steps\":%d,\"drift\":%d,\"first_drift\":\"%s\",\"final\":\"%s\",\"tids\":[", stepno, drift, first_drift, fin);
+    { mode_t um = umask(0); umask(um); fprintf(out, "{\"umask\":%u,", (unsigned) um); }      /* process-wide state after all calls returned (022 at start) */
+    fprintf(out, "\"steps\":%d,\"drift\":%d,\"first_drift\":\"%s\",\"final\":\"%s\",\"tids\":[", stepno, drift, first_drift, fin);
     for (int i = 1; i <= nthreads; i++) fprintf(out, "%s\"%lu\"", i > 1 ? "," : "", (unsigned long) tids[i]);
     fprintf(out, "],\"children\":[");
     int first = 1; for (int i = 1; i <= nthreads; i++) if (child_status[i]) { fprintf(out, "%s{\"t\":%d,\"status\":%d,\"note\":\"%s\"}", first ? "" : ",", i, child_status[i], child_note[i]); first = 0; }
@@ -268,6 +288,7 @@ int main(int argc, char **argv)
 {
     if (argc < 4) { fprintf(stderr, "usage: tsdrv measure|replay ini log [schedules out]\n"); return 2; }
     snoopy_configuration_preinit_enableAltConfigFileParsing(argv[2]);
+    umask(022);
     if (!strcmp(argv[1], "measure")) {
         mode_measure = 1; me = 1; tids[1] = pthread_self(); nthreads = 1;
         do_call(1, 1);
